@@ -2,5 +2,6 @@
 //! so that one known defect does not mask everything else in long histories. The dedicated
 //! monitor of the affected property still exercises the defect and reports it as KNOWN-FINDING.
 
-/// ZBDD reordering (level_swap is kind-agnostic): exercised by C08 only.
-pub const ZBDD_REORDER_IN_HISTORIES: bool = false;
+/// ZBDD reordering used to be a known finding (level_swap was kind-agnostic); repaired, so ZBDD
+/// histories reorder like the other kinds.
+pub const ZBDD_REORDER_IN_HISTORIES: bool = true;
